@@ -133,6 +133,16 @@ theorem C21_fromSerial_injective (s s' : Nat) (t : YMD)
   rw [civil_left_inv, civil_left_inv] at this
   omega
 
+/-- "exactly one", the other way: two dates with the same in-range serial are the same date -/
+theorem C21_toSerial_injective (t t' : YMD) (s : Nat) (h1 : 1 ≤ s) (h2 : s ≤ maxSerial)
+    (h : toSerial t = some (s : Int)) (h' : toSerial t' = some (s : Int)) : t = t' := by
+  have e := C21_date_roundtrip t s h h1 h2
+  have e' := C21_date_roundtrip t' s h' h1 h2
+  rw [e] at e'
+  exact Option.some.inj e'
+
+example : toSerial ⟨2024, 2, 29⟩ = some ((45351 : Nat) : Int) := by decide
+
 /-- out-of-range serials are rejected (models the two error returns of `from_excel_date`) -/
 theorem C21_out_of_range (s : Nat) (h : s < 1 ∨ maxSerial < s) : fromSerial s = none := by
   unfold fromSerial minSerial
